@@ -134,7 +134,7 @@ func (w *world) queryAt(th, what string, h int64) {
 
 func (w *world) storeQueryAt(th string, h int64) {
 	o := readObs{Thread: th, What: "store-query", H: h}
-	get, err := w.s.storeQuery(h)
+	get, err := w.s.storeQuery(h, alphabet)
 	if err != nil {
 		o.Err = firstLine(err.Error())
 	}
